@@ -571,6 +571,8 @@ def generate():
     report["files"].append("Gen/EulerKern.lean")
     report["methods"] = {k: [list(p) for p in v] for k, v in py2lean_kern.generate_methods(fns, gen_dir, write_if_changed).items()}
     report["files"].append("Gen/MethodKern.lean")
+    report["kernels"].update(py2lean_kern.generate_diffkern(fns, gen_dir, write_if_changed))
+    report["files"].append("Gen/DiffKern.lean")
     # ---- Dispatch.lean (for the line-protocol driver): every generated def by name ------------
     import re as _re
     cases = []
